@@ -130,6 +130,8 @@ type Res struct {
 	Sum   string `json:"sum,omitempty"`
 }
 
+type omniTransform = omniparser.Transform
+
 // RunOpts configures a transcript run.
 type RunOpts struct {
 	MaxReads  int
